@@ -274,3 +274,194 @@ impl<'a> Gen<'a> {
         format!("{pre}{body}")
     }
 }
+
+// ---------------------------------------------------------------------------------------------
+// operand exemplars for the operator tables (C01, C10)
+
+/// (name, expression text) — every name is bound by `exemplar_prelude`
+pub const EXEMPLARS: &[(&str, &str)] = &[
+    ("zero", "0"),
+    ("negzero", "-0"),
+    ("one", "1"),
+    ("negone", "-1"),
+    ("half", "0.5"),
+    ("frac", "2.7"),
+    ("big", "9007199254740993"),
+    ("huge", "HUGE"),
+    ("inf", "INF"),
+    ("neginf", "-INF"),
+    ("nan", "NAN"),
+    ("empty", "\"\""),
+    ("sa", "\"a\""),
+    ("se", "\"é\""),
+    ("snum", "\"12\""),
+    ("t", "TRUE"),
+    ("f", "FALSE"),
+    ("null", "NULL"),
+    ("l0", "[]"),
+    ("l1", "[1]"),
+    ("lnest", "[[1], \"a\"]"),
+    ("obj", "MAP()"),
+];
+
+pub fn exemplar_prelude() -> String {
+    format!(
+        "IMPORT MOD \"MAP\"\nINF <- {}\nNAN <- INF - INF\nHUGE <- 1{}\n",
+        inf_literal(),
+        "0".repeat(308)
+    )
+}
+
+/// all expression trees with exactly `n` operators over `ops`, leaves drawn from `leaves` in order
+pub fn expr_shapes(n: usize) -> Vec<Shape> {
+    if n == 0 {
+        return vec![Shape::Leaf];
+    }
+    let mut out = vec![];
+    // unary
+    for s in expr_shapes(n - 1) {
+        out.push(Shape::Un(Box::new(s)));
+    }
+    for k in 0..n {
+        for l in expr_shapes(k) {
+            for r in expr_shapes(n - 1 - k) {
+                out.push(Shape::Bin(Box::new(l.clone()), Box::new(r)));
+            }
+        }
+    }
+    out
+}
+
+#[derive(Clone, Debug)]
+pub enum Shape {
+    Leaf,
+    Un(Box<Shape>),
+    Bin(Box<Shape>, Box<Shape>),
+}
+
+/// expression trees for the precedence property (C05)
+#[derive(Clone, Debug)]
+pub enum PExpr {
+    Leaf(String),
+    Un(&'static str, Box<PExpr>),
+    Bin(&'static str, Box<PExpr>, Box<PExpr>),
+    Assign(String, Box<PExpr>),
+    Index(Box<PExpr>, Box<PExpr>),
+    Call(String, Vec<PExpr>),
+}
+
+/// precedence level: larger binds tighter
+pub fn level(op: &str) -> u8 {
+    match op {
+        "<-" => 1,
+        "OR" => 2,
+        "AND" => 3,
+        "==" | "!=" => 4,
+        "<" | "<=" | ">" | ">=" => 5,
+        "+" | "-" => 6,
+        "*" | "/" | "MOD" => 7,
+        _ => 0,
+    }
+}
+
+impl PExpr {
+    fn lvl(&self) -> u8 {
+        match self {
+            PExpr::Leaf(_) | PExpr::Call(..) | PExpr::Index(..) => 9,
+            PExpr::Un(..) => 8,
+            PExpr::Bin(op, ..) => level(op),
+            PExpr::Assign(..) => 1,
+        }
+    }
+    /// only the parentheses the documented grammar requires
+    pub fn render_min(&self) -> String {
+        match self {
+            PExpr::Leaf(s) => s.clone(),
+            PExpr::Un(op, e) => {
+                let inner = e.render_min();
+                let sep = if *op == "NOT" { " " } else { "" };
+                if e.lvl() >= 8 {
+                    format!("{op}{sep}{inner}")
+                } else {
+                    format!("{op}{sep}({inner})")
+                }
+            }
+            PExpr::Bin(op, l, r) => {
+                let me = level(op);
+                // binary operators group to the left: the right operand needs parentheses at the same level
+                let ls = if l.lvl() >= me { l.render_min() } else { format!("({})", l.render_min()) };
+                let rs = if r.lvl() > me { r.render_min() } else { format!("({})", r.render_min()) };
+                format!("{ls} {op} {rs}")
+            }
+            PExpr::Assign(x, v) => format!("{x} <- {}", v.render_min()),
+            PExpr::Index(l, k) => {
+                let ls = if l.lvl() >= 9 { l.render_min() } else { format!("({})", l.render_min()) };
+                format!("{ls}[{}]", k.render_min())
+            }
+            PExpr::Call(f, args) => format!("{f}({})", args.iter().map(|a| a.render_min()).collect::<Vec<_>>().join(", ")),
+        }
+    }
+    /// every sub-expression explicitly parenthesised
+    pub fn render_full(&self) -> String {
+        match self {
+            PExpr::Leaf(s) => s.clone(),
+            PExpr::Un(op, e) => {
+                let sep = if *op == "NOT" { " " } else { "" };
+                format!("({op}{sep}{})", e.render_full())
+            }
+            PExpr::Bin(op, l, r) => format!("({} {op} {})", l.render_full(), r.render_full()),
+            PExpr::Assign(x, v) => format!("({x} <- {})", v.render_full()),
+            PExpr::Index(l, k) => format!("({}[{}])", l.render_full(), k.render_full()),
+            PExpr::Call(f, args) => format!("({f}({}))", args.iter().map(|a| a.render_full()).collect::<Vec<_>>().join(", ")),
+        }
+    }
+}
+
+pub const P_BINOPS: &[&str] = &["OR", "AND", "==", "!=", "<", "<=", ">", ">=", "+", "-", "*", "/", "MOD"];
+
+pub fn random_pexpr(rng: &mut Rng, ops_left: &mut usize, leaf_id: &mut usize) -> PExpr {
+    if *ops_left == 0 || rng.chance(1, 6) {
+        *leaf_id += 1;
+        // probes make evaluation order and once-ness visible
+        return PExpr::Leaf(format!("P({}, v{})", *leaf_id, *leaf_id % 6));
+    }
+    *ops_left -= 1;
+    match rng.below(16) {
+        0 => PExpr::Un("-", Box::new(random_pexpr(rng, ops_left, leaf_id))),
+        1 => PExpr::Un("NOT", Box::new(random_pexpr(rng, ops_left, leaf_id))),
+        2 => PExpr::Assign(format!("w{}", rng.below(2)), Box::new(random_pexpr(rng, ops_left, leaf_id))),
+        3 => PExpr::Index(Box::new(PExpr::Leaf("lst".into())), Box::new(random_pexpr(rng, ops_left, leaf_id))),
+        4 => {
+            let a = random_pexpr(rng, ops_left, leaf_id);
+            let b = random_pexpr(rng, ops_left, leaf_id);
+            PExpr::Call("P".into(), vec![a, b])
+        }
+        _ => {
+            let op = P_BINOPS[rng.below(P_BINOPS.len())];
+            let l = random_pexpr(rng, ops_left, leaf_id);
+            let r = random_pexpr(rng, ops_left, leaf_id);
+            PExpr::Bin(op, Box::new(l), Box::new(r))
+        }
+    }
+}
+
+pub const VALUATIONS: &[[&str; 6]] = &[
+    ["2", "3", "5", "7", "11", "13"],
+    ["0", "1", "2", "0", "3", "1"],
+    ["TRUE", "FALSE", "TRUE", "FALSE", "NULL", "1"],
+    ["\"a\"", "2", "\"b\"", "3", "0", "1"],
+    ["1", "0", "0", "2", "FALSE", "TRUE"],
+    ["7", "2", "0.5", "3", "2", "4"],
+    ["NULL", "0", "1", "\"\"", "2", "3"],
+    ["3", "2", "1", "3", "2", "1"],
+];
+
+pub fn pexpr_program(e: &str, valuation: &[&str; 6]) -> String {
+    let mut s = String::from("PROCEDURE P(k, v) {\n  DISPLAY(k)\n  RETURN v\n}\n");
+    for (i, v) in valuation.iter().enumerate() {
+        s.push_str(&format!("v{i} <- {v}\n"));
+    }
+    s.push_str("w0 <- 0\nw1 <- 0\nlst <- [10, 20, 30]\n");
+    s.push_str(&format!("DISPLAY({e})\nDISPLAY(w0)\nDISPLAY(w1)\n"));
+    s
+}
